@@ -72,6 +72,19 @@ theorem sbytes_eq_nil (k : String) : (sbytes k = []) ↔ k = "" := by
   have := sbytes_isEmpty k
   by_cases h : k = "" <;> simp_all
 
+theorem keyOf_resolved (a : SAttr) : keyOf (resolved a) = keyOf a := by cases a <;> rfl
+theorem lvOf_resolved (a : SAttr) : lvOf (resolved a) = 0 := by cases a <;> rfl
+@[simp] theorem attrV_resolved (a : SAttr) : Val.list [.bytes (sbytes (keyOf a)), valueV (resolved a)] = attrV (resolved a) := by
+  rw [attrV_eq, keyOf_resolved]
+@[simp] theorem ext_equal' (P : Par) (a : SAttr) (z : Val) : ext P "Attr.Equal" [attrV a, z] = some [.bool (isZeroAttr a)] := by
+  cases a <;> rfl
+@[simp] theorem builtin_tuple2 (a b : Val) : builtin "tuple" [a, b] = some (.list [a, b]) := id rfl
+
+theorem kindOfTy_range (ty : String) : 0 ≤ kindOfTy ty ∧ kindOfTy ty ≤ 7 := by
+  unfold kindOfTy
+  repeat' split
+  all_goals omega
+
 @[simp] theorem ext_skip (P : Par) : ext P "zap.Skip" [] = some [skipV] := id rfl
 @[simp] theorem ext_ctor2 (P : Par) (k p : Val) :
     ext P "zap.Bool" [k, p] = some [.list [nm "zap.Bool", k, p]] ∧ ext P "zap.Duration" [k, p] = some [.list [nm "zap.Duration", k, p]] ∧
